@@ -25,6 +25,10 @@ def e2e_tables(ctx):
     probs = [(dict(streams=[dict(zone="Z", name="h", t_supply=200.0, t_target=100.0, heat_flow=100.0, dt_cont=10.0, htc=1.0),
                             dict(zone="Z", name="c", t_supply=50.0, t_target=150.0, heat_flow=150.0, dt_cont=5.0, htc=1.0)],
                    utilities=[]), dict(zones=1, shapes=["D4"], regime="none"))]     # D4 witness shape: dt_cont > 0, overlapping
+    # a zone with exactly 17 hot and 33 cold streams (block sizes, off-by-one in chunked sums)
+    many = [dict(zone="Train", name=f"H{i}", t_supply=300.0 - 5.0 * i, t_target=120.0 - 5.0 * i, heat_flow=90.0 + 10.0 * i, dt_cont=5.0, htc=1.0) for i in range(17)]
+    many += [dict(zone="Train", name=f"C{i}", t_supply=20.0 + 2.5 * i, t_target=150.0 + 2.5 * i, heat_flow=65.0 + 5.0 * i, dt_cont=5.0, htc=1.0) for i in range(33)]
+    probs.append((dict(streams=many, utilities=[]), dict(zones=1, shapes=["17_hot_33_cold"], regime="none")))
     for _ in range(n):
         prob, m = pc.gen_problem(ctx.rng, nmax=6)
         if ctx.rng.random() < 0.3:
